@@ -222,3 +222,45 @@ func TestRandomOS(t *testing.T) {
 		return sub
 	})
 }
+
+// Sub views (C07): the view of a directory must behave like a file system of its own
+func subOfMem(tb testing.TB) hackpadfs.FS {
+	fs, _, err := fsad.MemFS()
+	if err != nil {
+		tb.Fatal(err)
+	}
+	if err := hackpadfs.MkdirAll(fs, "d/e", 0755); err != nil {
+		tb.Fatal(err)
+	}
+	// something next to and above the view that it must never show or touch
+	_ = hackpadfs.WriteFullFile(fs, "d/x", []byte("outside"), 0644)
+	_ = hackpadfs.WriteFullFile(fs, "d/ex", []byte("outside"), 0644)
+	sub, err := hackpadfs.Sub(fs, "d/e")
+	if err != nil {
+		tb.Fatal(err)
+	}
+	return sub
+}
+
+func subOfSubOfOS(tb testing.TB) hackpadfs.FS {
+	base, err := hpos.NewFS().Sub(strings.TrimPrefix(tb.TempDir(), "/"))
+	if err != nil {
+		tb.Fatal(err)
+	}
+	if err := hackpadfs.MkdirAll(base, "d/e", 0755); err != nil {
+		tb.Fatal(err)
+	}
+	s1, err := hackpadfs.Sub(base, "d")
+	if err != nil {
+		tb.Fatal(err)
+	}
+	s2, err := hackpadfs.Sub(s1, "e")
+	if err != nil {
+		tb.Fatal(err)
+	}
+	return s2
+}
+
+func TestTraceSubMem(t *testing.T)  { suite(t, "submem", subOfMem) }
+func TestRandomSubMem(t *testing.T) { randomHistories(t, "submem", subOfMem) }
+func TestRandomSubOS(t *testing.T)  { randomHistories(t, "subos", subOfSubOfOS) }
